@@ -91,7 +91,9 @@ type hw struct {
 	lastOp      string
 	curChain    string // chain whose key pigeons sign with in the current operation
 	sampled     map[string]bool
-	lateIdx     int // validator that brings its pigeon up late (-1: none)
+	lateIdx     int        // validator that brings its pigeon up late (-1: none)
+	r2          *rand.Rand // stream of the scripted fee-gap scenario (feegap.go)
+	gapDue      int        // fee-gap scenarios still to run
 }
 
 type params struct {
@@ -206,6 +208,7 @@ func newHW(cs fw.Case, p params, rec *fw.Recorder) (*hw, error) {
 	for i := range stakes {
 		stakes[i] = int64(10+r.Intn(4)*10) * 1_000_000
 	}
+	w.r2 = rand.New(rand.NewSource(cs.Seed ^ 0x5eedfee14))
 	prefix := fmt.Sprintf("c14-%d", cs.Seed)
 	specs := chain.DefaultValidators(prefix, stakes)
 	w.vals = world.Accts(specs)
@@ -872,6 +875,17 @@ func (w *hw) phaseC(steps int) {
 				return
 			}
 			w.observe(nil)
+		}
+		// scripted scenario (feegap.go): fee inputs unusable in the pass in which an estimate reaches quorum
+		if s%45 == 20 {
+			w.gapDue++
+		}
+		if w.gapDue > 0 && w.feeGap(w.r2) {
+			w.gapDue--
+			continue
+		}
+		if w.stop {
+			return
 		}
 		// an undelivered validator-set update blocks everything behind it: deliver it with some probability
 		if vs := w.candidates(func(it qItem) bool { return it.Kind == "valset" }); len(vs) > 0 && r.Intn(4) == 0 {
